@@ -6,6 +6,10 @@ func init() {
 	registerProp(&propSpec{ID: "C15", Patterns: []string{"./machine"}})
 	registerProp(&propSpec{ID: "C16", Patterns: []string{"./machine"}})
 	registerProp(&propSpec{ID: "C02", Patterns: []string{".", "./internal/coq", "./cmd/goose"}, Setup: translatorSetup})
+	registerProp(&propSpec{ID: "C04", Patterns: []string{".", "./internal/coq", "./cmd/goose"},
+		Setup:  func(p *Program) { translatorSetup(p); p.checkMentions = true },
+		Sweep:  sweepMentions,
+		Filter: func(o *Obligation) bool { return o.Kind == "dep-recorded" || strings.Contains(o.Name, "dependency") || strings.Contains(o.Name, "[C04") }})
 	registerProp(&propSpec{ID: "C07", Patterns: []string{".", "./internal/coq", "./cmd/goose"}, Setup: translatorSetup, Sweep: sweepContracts("C07")})
 	registerProp(&propSpec{ID: "C09", Patterns: []string{"./machine/disk", "./machine/async_disk"}})
 	registerProp(&propSpec{ID: "C10", Patterns: []string{"./machine/disk"}, Filter: lockFilter})
